@@ -178,6 +178,16 @@ fn check_diff(case: &DecCase, p: &mut Probe) -> Check {
         if ra != rb {
             return Err(Fail::new("factory-mismatch", format!("{name}: factory-built decoder returns {ra:?}, the generic decoder built directly with the named arithmetic and schedule returns {rb:?}")));
         }
+        // a second call on the same two objects under a larger limit (a third of the names per case)
+        if (direct_out.len() + case.h.ones.len()) % 3 == 1 {
+            let lim2 = case.limit * 4 + 7;
+            let ra2 = guarded(|| a.decode(&llrs, lim2)).map_err(|e| Fail::new("panic", format!("{name}: factory decoder panicked on its second call (limit {lim2} after {}): {e}", case.limit)))?;
+            let rb2 = guarded(|| b.decode(&llrs, lim2)).map_err(|e| Fail::new("panic", format!("{name}: direct decoder panicked on its second call: {e}")))?;
+            if ra2 != rb2 {
+                return Err(Fail::new("factory-mismatch-second-call", format!("{name}: second call (limit {lim2} after {}): factory-built decoder returns {ra2:?}, the generic decoder returns {rb2:?}", case.limit)));
+            }
+            p.class("second-call-with-a-larger-limit");
+        }
         // "no limit": a frame the direct decoder converges on is decoded again by fresh decoders of both
         // kinds under an iteration limit beyond the i32 / u32 range
         if rb.is_ok() && (direct_out.len() + case.h.ones.len()) % 5 == 0 {
@@ -323,6 +333,11 @@ fn nonmember() -> impl Strategy<Value = String> {
             c.into_iter().collect()
         }),
         "[A-Za-z0-9]{0,12}",
+        // bytes that a text-handling shortcut may treat as padding or as nothing: NUL, other control
+        // characters, non-breaking and zero-width spaces, a byte-order mark, appended or prepended
+        (name(), prop_oneof![Just("\0"), Just("\0\0"), Just("\t"), Just("\n"), Just("\r\n"), Just("\u{a0}"), Just("\u{200b}"), Just("\u{feff}"), Just("\u{7f}")], any::<bool>()).prop_map(|(s, x, front)| if front { format!("{x}{s}") } else { format!("{s}{x}") }),
+        // a name followed by NULs up to a total length of 8 or 16 bytes (zero-padded fixed-width keys)
+        (name(), prop_oneof![Just(8usize), Just(16), Just(32)]).prop_map(|(s, w)| if s.len() < w { format!("{s}{}", "\0".repeat(w - s.len())) } else { format!("{s}\0") }),
     ]
 }
 
@@ -356,7 +371,7 @@ pub fn property() -> Property {
             }),
             Box::new(Sub {
                 name: "differential",
-                rule: "for each of the 36 names, factory-built decoder vs the generic decoder constructed directly from the named arithmetic type and schedule, on a separating family of inputs (C01 classes + strong LLRs 9..16.2 with sign flips so that degree-one clipping, Jones clipping, partial hard limiting, f32 saturation and schedule differences matter; H up to 10 x 14; limits {0,1,2,3,5,10}, converged frames repeated under a limit of usize::MAX, 2^32, 2^31 or 2^32 - 1); outputs must be identical; for a quarter of the names the factory is asked twice in a row, the second time for a slightly different matrix of the same shape and row weights (two entries of a row moved towards each other, two columns exchanged, rows reversed, one entry moved), and that decoder is compared with the direct decoder of the second matrix; non-trivial = a case on which at least two of the 36 direct decoders disagree; inner evaluations = compared decoder pairs",
+                rule: "for each of the 36 names, factory-built decoder vs the generic decoder constructed directly from the named arithmetic type and schedule, on a separating family of inputs (C01 classes + strong LLRs 9..16.2 with sign flips so that degree-one clipping, Jones clipping, partial hard limiting, f32 saturation and schedule differences matter; H up to 10 x 14; limits {0,1,2,3,5,10}, a third of the decoder pairs called a second time under a larger limit, converged frames repeated under a limit of usize::MAX, 2^32, 2^31 or 2^32 - 1); outputs must be identical; for a quarter of the names the factory is asked twice in a row, the second time for a slightly different matrix of the same shape and row weights (two entries of a row moved towards each other, two columns exchanged, rows reversed, one entry moved), and that decoder is compared with the direct decoder of the second matrix; non-trivial = a case on which at least two of the 36 direct decoders disagree; inner evaluations = compared decoder pairs",
                 cases: |t| t.pick(100_000, 3_000_000),
                 strategy,
                 check: check_diff,
@@ -379,7 +394,7 @@ pub fn property() -> Property {
             }),
             Box::new(Sub {
                 name: "rejection",
-                rule: "generated non-members: case changes, surrounding/inner whitespace, HL prefix added to any name, random prefixes/suffixes, single-character deletions, insertions, transpositions and replacements of each name, random short strings; FromStr and ValueEnum::from_str(_, false) must reject; strings that happen to be members are counted separately",
+                rule: "generated non-members: case changes, surrounding/inner whitespace, HL prefix added to any name, random prefixes/suffixes, single-character deletions, insertions, transpositions and replacements of each name, random short strings, names with NUL / control / zero-width characters or a byte-order mark attached, names NUL-padded to 8, 16 or 32 bytes; FromStr and ValueEnum::from_str(_, false) must reject; strings that happen to be members are counted separately",
                 cases: |t| t.pick(400_000, 10_000_000),
                 strategy: |_| nonmember().boxed(),
                 check: check_reject,
